@@ -5,6 +5,9 @@ import (
 	"fmt"
 	"math"
 	"math/big"
+	"os"
+	"os/exec"
+	"path/filepath"
 	"reflect"
 	"strings"
 	"time"
@@ -89,6 +92,57 @@ func checkC19(c *Ctx) error {
 		return fmt.Errorf("Ranger.tla no longer distinguishes the overflowing constructors")
 	}
 	c19Len(c)
+	return c19Apalache(c)
+}
+
+// c19Apalache: the inductive invariant of RangerInd.tla (the repaired iterator over the FULL 64-bit range, all a and b
+// at once) is discharged by Apalache -- base case and inductive step -- and the deviation without the guards at the
+// extremes is refuted.  (Apalache missing or timing out is a tooling failure, never a verdict.)
+func c19Apalache(c *Ctx) error {
+	dir, err := os.MkdirTemp("", "verif-apalache-")
+	if err != nil {
+		return err
+	}
+	defer os.RemoveAll(dir)
+	for _, f := range []string{"RangerInd.tla", "RangerIndDev.tla"} {
+		b, err := os.ReadFile(filepath.Join(verifRoot, "spec", f))
+		if err != nil {
+			return err
+		}
+		os.WriteFile(filepath.Join(dir, f), b, 0o644)
+	}
+	run := func(module, init string, length int) (string, error) {
+		cmd := exec.Command("timeout", "600", "apalache-mc", "check", "--init="+init, "--inv=IndInv", fmt.Sprintf("--length=%d", length), module+".tla")
+		cmd.Dir = dir
+		out, _ := cmd.CombinedOutput()
+		switch {
+		case strings.Contains(string(out), "EXITCODE: OK"):
+			return "holds", nil
+		case strings.Contains(string(out), "EXITCODE: ERROR (12)"):
+			return "violated", nil
+		}
+		return "", fmt.Errorf("apalache-mc on %s: %s", module, trunc(string(out), 400))
+	}
+	res := map[string]string{}
+	for _, st := range []struct {
+		name, module, init string
+		length             int
+		want               string
+	}{
+		{"base: Init => IndInv", "RangerInd", "Init", 0, "holds"},
+		{"step: IndInv /\\ Next => IndInv'", "RangerInd", "IndInv", 1, "holds"},
+		{"deviation (no guards at the extremes): Init => IndInv", "RangerIndDev", "Init", 0, "violated"},
+	} {
+		got, err := run(st.module, st.init, st.length)
+		if err != nil {
+			return err
+		}
+		res[st.name] = got
+		if got != st.want {
+			return fmt.Errorf("RangerInd.tla: %s is %s, expected %s", st.name, got, st.want)
+		}
+	}
+	c.extra["apalache_inductive_invariant"] = map[string]interface{}{"module": "RangerInd.tla", "range": "all a, b in [-2^63, 2^63-1]", "results": res}
 	return nil
 }
 
